@@ -76,8 +76,14 @@ impl WalIndex {
             )
         })?;
 
+        #[cfg(feature = "verif")]
+        crate::wal::verif::io_event_bytes("tmp_write", &tmp_path, 0, bytes.len() as u64, Some(&bytes));
         fs::write(&tmp_path, &bytes)?;
+        #[cfg(feature = "verif")]
+        crate::wal::verif::io_event("fsync", &tmp_path, 0, 0);
         fs::File::open(&tmp_path)?.sync_all()?;
+        #[cfg(feature = "verif")]
+        crate::wal::verif::io_event("rename", &self.path, 0, 0);
         fs::rename(&tmp_path, &self.path)?;
         Ok(())
     }
